@@ -3,6 +3,7 @@ C09 — property theorems about the model in `NipyVerif.Model.C09`
 (joint histogram kernel, its PRNG, `L1_moments`, similarity measures).
 -/
 import NipyVerif.Lemmas.C09
+import NipyVerif.Lemmas.C09M
 
 namespace NipyVerif.C09
 
@@ -23,5 +24,343 @@ theorem weights_trilinear (wx wy wz : Rat) :
 /-- the eight weights always sum to one: nothing is lost or created by the weight algebra -/
 theorem weights_sum_one (wx wy wz : Rat) : (weights wx wy wz).sum = 1 := by
   simp only [weights, List.sum_cons, List.sum_nil]; ring
+
+
+/-- every weight of a real voxel is non-negative: the coordinates' fractional parts lie in [0,1] -/
+theorem weights_nonneg (V : Vol) (v : Vox) : ∀ p ∈ neighbours V v, 0 ≤ p.2 :=
+  neighbours_nonneg V v
+
+/-! ## Who contributes -/
+
+/-- a source voxel with negative (masked) intensity, or whose transformed position fails the inside
+    test, contributes nothing — in every interpolation mode -/
+theorem not_inside_no_deposit (m : Mode) (V : Vol) (clampJ : Nat) (stale : Int) (v : Vox) (u : Rat)
+    (h : ¬ inside V v) : voxDeps m V clampJ stale v u = [] := by
+  simp [voxDeps, h]
+
+/-- in particular negative source intensities are ignored -/
+theorem negative_intensity_ignored (m : Mode) (V : Vol) (clampJ : Nat) (stale : Int) (v : Vox) (u : Rat)
+    (h : v.i < 0) : voxDeps m V clampJ stale v u = [] :=
+  not_inside_no_deposit m V clampJ stale v u (fun hi => absurd hi.1 (not_le.mpr h))
+
+/-- padding / masked target voxels (`-1`) never receive or provide mass: every appended neighbour
+    has a non-negative intensity read from the padded image and a non-negative weight -/
+theorem appended_valid (V : Vol) (v : Vox) : ∀ p ∈ appended V v, 0 ≤ p.1 ∧ 0 ≤ p.2 ∧ ∃ q, p.1 = V.get q :=
+  fun _ hp => appended_mem hp
+
+/-! ## Mass per source voxel -/
+
+/-- PV: the mass a voxel adds is the total weight of its unmasked neighbours; it lies in [0,1]
+    (never created) -/
+theorem pv_mass (V : Vol) (clampJ : Nat) (stale : Int) (v : Vox) (u : Rat) (h : inside V v) :
+    mass (voxDeps .pv V clampJ stale v u) = sumW (appended V v) ∧
+    0 ≤ mass (voxDeps .pv V clampJ stale v u) ∧ mass (voxDeps .pv V clampJ stale v u) ≤ 1 := by
+  have e : mass (voxDeps .pv V clampJ stale v u) = sumW (appended V v) := by
+    simp [voxDeps, h, pvDeps, mass, sumW, List.map_map, Function.comp_def]
+  rw [e]
+  exact ⟨rfl, sumW_nonneg_of (fun p hp => (appended_mem hp).2.1), sumW_appended_le_one V v⟩
+
+/-- PV: when none of the eight neighbours is padding or masked the voxel adds exactly one unit
+    (never lost) -/
+theorem pv_mass_full (V : Vol) (clampJ : Nat) (stale : Int) (v : Vox) (u : Rat) (h : inside V v)
+    (hall : ∀ p ∈ neighbours V v, 0 ≤ V.get p.1) :
+    mass (voxDeps .pv V clampJ stale v u) = 1 := by
+  rw [(pv_mass V clampJ stale v u h).1]
+  have hf : appended V v = (neighbours V v).map (fun p => (V.get p.1, p.2)) := by
+    unfold appended
+    apply List.filter_eq_self.mpr
+    intro p hp
+    rw [List.mem_map] at hp
+    obtain ⟨a, ha, rfl⟩ := hp
+    simpa using hall a ha
+  rw [hf]
+  unfold sumW
+  rw [List.map_map]
+  have : ((fun (p : Int × Rat) => p.2) ∘ fun (p : Nat × Rat) => (V.get p.1, p.2)) = (·.2) := rfl
+  rw [this, neighbours_weights, weights_sum_one]
+
+/-- TRI: exactly one count when some unmasked neighbour has positive weight, none otherwise -/
+theorem tri_mass (V : Vol) (clampJ : Nat) (stale : Int) (v : Vox) (u : Rat) (h : inside V v) :
+    mass (voxDeps .tri V clampJ stale v u) = if sumW (appended V v) > 0 then 1 else 0 := by
+  simp only [voxDeps, h, if_true, triDeps]
+  split <;> simp [mass]
+
+/-- RAND (with the `sumW > 0` guard): exactly one count when some unmasked neighbour has positive
+    weight, none otherwise -/
+theorem rand_mass (V : Vol) (clampJ : Nat) (stale : Int) (v : Vox) (u : Rat) (h : inside V v) :
+    mass (voxDeps .rand V clampJ stale v u) = if sumW (appended V v) > 0 then 1 else 0 := by
+  simp only [voxDeps, h, if_true, randDeps]
+  split
+  · split <;> simp [mass]
+  · simp [mass]
+
+/-- RAND: for a draw `u ∈ [0,1)` the count goes to the intensity of an unmasked neighbour of
+    positive weight; the stale slot `J[nn]` is never read -/
+theorem rand_picks_neighbour (V : Vol) (clampJ : Nat) (stale : Int) (v : Vox) (u : Rat) (h : inside V v)
+    (hs : sumW (appended V v) > 0) (hu0 : 0 ≤ u) (hu1 : u < 1) :
+    ∃ j w, (j, w) ∈ appended V v ∧ 0 < w ∧
+      voxDeps .rand V clampJ stale v u = [(j + clampJ * v.i, 1)] := by
+  obtain ⟨j, w, e, m, hw⟩ := pick_valid (appended V v) 0 (sumW (appended V v) * u)
+    (mul_nonneg hs.le hu0) (by nlinarith)
+  exact ⟨j, w, m, hw, by simp [voxDeps, h, randDeps, hs, e]⟩
+
+/-! ## Nothing is written outside the histogram -/
+
+/-- every deposit of a voxel with intensity `i` lands in row `i` of the histogram, at a column in
+    `[0, clampJ)`: `clampJ*i ≤ index < clampJ*(i+1)` (all three modes; RAND for draws in [0,1)),
+    provided the padded target only holds values in `[-1, clampJ)` -/
+theorem deposit_in_row (m : Mode) (V : Vol) (clampJ : Nat) (stale : Int) (v : Vox) (u : Rat)
+    (hJ : ∀ q, V.get q < (clampJ : Int)) (hu0 : 0 ≤ u) (hu1 : u < 1) :
+    ∀ d ∈ voxDeps m V clampJ stale v u,
+      (clampJ : Int) * v.i ≤ d.1 ∧ d.1 < (clampJ : Int) * (v.i + 1) := by
+  intro d hd
+  by_cases h : inside V v
+  swap
+  · simp [voxDeps, h] at hd
+  have key : ∀ p ∈ appended V v, 0 ≤ p.1 ∧ p.1 < (clampJ : Int) := by
+    intro p hp
+    obtain ⟨a, _, q, e⟩ := appended_mem hp
+    exact ⟨a, e ▸ hJ q⟩
+  cases m with
+  | pv =>
+      simp only [voxDeps, h, if_true, pvDeps, List.mem_map] at hd
+      obtain ⟨p, hp, rfl⟩ := hd
+      have := key p hp
+      constructor <;> simp only <;> nlinarith [this.1, this.2]
+  | tri =>
+      simp only [voxDeps, h, if_true, triDeps] at hd
+      split at hd
+      · rename_i hs
+        simp only [List.mem_singleton] at hd
+        subst hd
+        have hb := wmean_bounds (appended V v) ((clampJ : Rat) - 1) (by
+          intro p hp
+          have := key p hp
+          refine ⟨(appended_mem hp).2.1, by exact_mod_cast this.1, ?_⟩
+          have h2 : p.1 ≤ (clampJ : Int) - 1 := by omega
+          have : (p.1 : Rat) ≤ ((clampJ : Int) - 1 : Int) := by exact_mod_cast h2
+          push_cast at this; exact this)
+        have hq0 : 0 ≤ wmean (appended V v) / sumW (appended V v) := div_nonneg hb.1 hs.le
+        have hq1 : wmean (appended V v) / sumW (appended V v) ≤ (((clampJ : Int) - 1 : Int) : Rat) := by
+          rw [div_le_iff₀ hs]; push_cast; exact hb.2
+        obtain ⟨r0, r1⟩ := uround_bounds hq0 hq1
+        constructor <;> simp only <;> nlinarith
+      · simp at hd
+  | rand =>
+      by_cases hs : sumW (appended V v) > 0
+      · obtain ⟨j, w, mj, _, e⟩ := rand_picks_neighbour V clampJ stale v u h hs hu0 hu1
+        rw [e] at hd
+        simp only [List.mem_singleton] at hd
+        subst hd
+        have := key (j, w) mj
+        constructor <;> simp only <;> nlinarith [this.1, this.2]
+      · simp [voxDeps, h, randDeps, hs] at hd
+
+/-- hence, for source intensities in `[0, clampI)`, every flat index is inside `[0, clampI*clampJ)` -/
+theorem deposit_in_histogram (m : Mode) (V : Vol) (clampI clampJ : Nat) (stale : Int) (v : Vox) (u : Rat)
+    (hI : v.i < (clampI : Int)) (hJ : ∀ q, V.get q < (clampJ : Int)) (hu0 : 0 ≤ u) (hu1 : u < 1) :
+    ∀ d ∈ voxDeps m V clampJ stale v u, 0 ≤ d.1 ∧ d.1 < ((clampI * clampJ : Nat) : Int) := by
+  intro d hd
+  obtain ⟨a, b⟩ := deposit_in_row m V clampJ stale v u hJ hu0 hu1 d hd
+  have hi : 0 ≤ v.i := by
+    by_cases h : inside V v
+    · exact h.1
+    · simp [voxDeps, h] at hd
+  have h1 : v.i + 1 ≤ (clampI : Int) := by omega
+  push_cast
+  constructor
+  · nlinarith
+  · nlinarith [mul_le_mul_of_nonneg_left h1 (Int.natCast_nonneg clampJ)]
+
+/-- mass is never lost, created or written outside: when every deposit is inside the histogram, the
+    histogram's total is exactly the total deposited mass -/
+theorem hist_total_mass (n : Nat) (ds : List Dep) (h : ∀ d ∈ ds, 0 ≤ d.1 ∧ d.1 < (n : Int)) :
+    (hist n ds).sum = mass ds := hist_sum n ds h
+
+/-! ## Neighbour reads stay inside the padded image; integer coordinates; PRNG -/
+
+/-- the inside test makes all eight neighbour reads land inside the padded target image -/
+theorem neighbours_in_bounds (V : Vol) (v : Vox) (h : inside V v) :
+    ∀ p ∈ neighbours V v, p.1 < V.size := by
+  obtain ⟨_, ⟨x0, x1⟩, ⟨y0, y1⟩, ⟨z0, z1⟩⟩ := h
+  obtain ⟨ax0, ax1⟩ := nIdx_range x0 x1
+  obtain ⟨ay0, ay1⟩ := nIdx_range y0 y1
+  obtain ⟨az0, az1⟩ := nIdx_range z0 z1
+  obtain ⟨a, ha⟩ := Int.eq_ofNat_of_zero_le ax0
+  obtain ⟨b, hb⟩ := Int.eq_ofNat_of_zero_le ay0
+  obtain ⟨c, hc⟩ := Int.eq_ofNat_of_zero_le az0
+  have ha' : a ≤ V.dx := by omega
+  have hb' : b ≤ V.dy := by omega
+  have hc' : c ≤ V.dz := by omega
+  intro p hp
+  have hm := (List.of_mem_zip (a := p.1) (b := p.2) hp).1
+  rw [List.mem_map] at hm
+  obtain ⟨o, ho, e⟩ := hm
+  have hoff : (offOf V v).toNat = a * V.u4 + b * V.u2 + c := by
+    unfold offOf; rw [ha, hb, hc]; norm_cast
+  have ho' : o ≤ V.u4 + V.u2 + 1 := by
+    simp only [offsets, List.mem_cons, List.not_mem_nil, or_false] at ho
+    rcases ho with rfl | rfl | rfl | rfl | rfl | rfl | rfl | rfl <;> omega
+  rw [← e, hoff]
+  unfold Vol.size
+  have hu4 : V.u4 = V.dy * V.u2 + 2 * V.u2 := by unfold Vol.u4 Vol.u2; ring
+  have hu2 : V.u2 = V.dz + 2 := rfl
+  have h1 : a * V.u4 ≤ V.dx * V.u4 := Nat.mul_le_mul_right _ ha'
+  have h2 : b * V.u2 ≤ V.dy * V.u2 := Nat.mul_le_mul_right _ hb'
+  have h3 : (V.dx + 2) * ((V.dy + 2) * (V.dz + 2)) = V.dx * V.u4 + 2 * V.u4 := by
+    unfold Vol.u4; ring
+  rw [h3]
+  omega
+
+
+/-- integer target coordinates put all the weight on the first neighbour (the voxel itself) -/
+theorem integer_coords_weights (V : Vol) (i : Int) (x y z : Nat) :
+    (neighbours V ⟨i, x, y, z⟩).map (·.2) = [1, 0, 0, 0, 0, 0, 0, 0] ∧
+    (neighbours V ⟨i, x, y, z⟩).head?.map (·.1) = some ((x + 1) * V.u4 + (y + 1) * V.u2 + (z + 1)) := by
+  have hn : ∀ n : Nat, nIdx (n : Rat) = (n : Int) + 1 := by
+    intro n; unfold nIdx; rw [floorC_eq]; simp
+  constructor
+  · rw [neighbours_weights]
+    simp only [hn]
+    push_cast
+    simp [weights]
+  · have hoff : (offOf V ⟨i, x, y, z⟩).toNat = (x + 1) * V.u4 + (y + 1) * V.u2 + (z + 1) := by
+      unfold offOf; simp only [hn]; norm_cast
+    unfold neighbours
+    rw [hoff]
+    simp [offsets, weights]
+
+
+theorem identity_diagonal_pv (V : Vol) (clampJ : Nat) (stale : Int) (i : Int) (x y z : Nat) (u : Rat)
+    (hv : V.get ((x + 1) * V.u4 + (y + 1) * V.u2 + (z + 1)) = i) :
+    ∀ d ∈ voxDeps .pv V clampJ stale ⟨i, x, y, z⟩ u, d.2 ≠ 0 → d.1 = i + clampJ * i := by
+  intro d hd hne
+  by_cases h : inside V ⟨i, x, y, z⟩
+  swap
+  · simp [voxDeps, h] at hd
+  simp only [voxDeps, h, if_true, pvDeps, appended, neighbours_integer, List.mem_map, List.mem_filter,
+    List.mem_cons, List.not_mem_nil, or_false] at hd
+  obtain ⟨p, ⟨⟨a, ha, rfl⟩, _⟩, rfl⟩ := hd
+  rcases ha with rfl | rfl | rfl | rfl | rfl | rfl | rfl | rfl
+  · simp [hv]
+  all_goals exact absurd rfl hne
+
+/-- identity / integer coordinates, TRI and RAND: the single count goes to bin `(i, j)` where `j`
+    is the target value under the voxel — the diagonal bin when source and target agree -/
+theorem identity_diagonal_tri_rand (V : Vol) (clampJ : Nat) (stale : Int) (i j : Int) (x y z : Nat) (u : Rat)
+    (h : inside V ⟨i, x, y, z⟩) (hj : 0 ≤ j)
+    (hv : V.get ((x + 1) * V.u4 + (y + 1) * V.u2 + (z + 1)) = j) (hu1 : u < 1) :
+    voxDeps .tri V clampJ stale ⟨i, x, y, z⟩ u = [(j + clampJ * i, 1)] ∧
+    voxDeps .rand V clampJ stale ⟨i, x, y, z⟩ u = [(j + clampJ * i, 1)] := by
+  obtain ⟨rest, e, s0, m0⟩ := appended_integer V i j x y z hj hv
+  have hs : sumW ((j, (1 : Rat)) :: rest) = 1 := by
+    have : sumW ((j, (1 : Rat)) :: rest) = 1 + sumW rest := by simp [sumW]
+    rw [this, s0]; simp
+  have hm : wmean ((j, (1 : Rat)) :: rest) = j := by
+    have : wmean ((j, (1 : Rat)) :: rest) = 1 * (j : Rat) + wmean rest := by simp [wmean]
+    rw [this, m0]; simp
+  constructor
+  · simp only [voxDeps, h, if_true, triDeps, e, hs, hm]
+    have hr : uround (j : Rat) = j := by
+      unfold uround
+      rw [truncC_nonneg (by have : (0 : Rat) ≤ j := by exact_mod_cast hj
+                            linarith)]
+      rw [Int.floor_eq_iff]; constructor <;> push_cast <;> linarith
+    simp [hr]
+  · simp only [voxDeps, h, if_true, randDeps, e, hs]
+    have : pick ((j, (1 : Rat)) :: rest) 0 u = some j := by
+      simp [pick, hu1]
+    simp [this]
+
+theorem prng_value_range (s : Prng) (h : 0 ≤ s.ix ∧ 0 ≤ s.iy ∧ 0 ≤ s.iz ∧ 0 ≤ s.it) :
+    0 ≤ prngValue s ∧ prngValue s < 1 := by
+  unfold prngValue
+  simp only
+  have hW : (0 : Rat) ≤ (s.ix : Rat) / 2147483579 + (s.iy : Rat) / 2147483543
+      + (s.iz : Rat) / 2147483423 + (s.it : Rat) / 2147483123 := by
+    have a : (0 : Rat) ≤ s.ix := by exact_mod_cast h.1
+    have b : (0 : Rat) ≤ s.iy := by exact_mod_cast h.2.1
+    have c : (0 : Rat) ≤ s.iz := by exact_mod_cast h.2.2.1
+    have d : (0 : Rat) ≤ s.it := by exact_mod_cast h.2.2.2
+    positivity
+  rw [truncC_nonneg hW]
+  constructor
+  · linarith [Int.floor_le ((s.ix : Rat) / 2147483579 + (s.iy : Rat) / 2147483543
+      + (s.iz : Rat) / 2147483423 + (s.it : Rat) / 2147483123)]
+  · linarith [Int.lt_floor_add_one ((s.ix : Rat) / 2147483579 + (s.iy : Rat) / 2147483543
+      + (s.iz : Rat) / 2147483423 + (s.it : Rat) / 2147483123)]
+
+
+/-- one Schrage step keeps a state component in `[0, m)` … for the first multiplier -/
+theorem schrage_range (x : Int) (h0 : 0 ≤ x) (h1 : x < 2147483579) :
+    0 ≤ schrage 11600 185127 10379 2147483579 x ∧ schrage 11600 185127 10379 2147483579 x < 2147483579 := by
+  unfold schrage
+  simp only
+  have := Int.emod_nonneg x (by norm_num : (185127 : Int) ≠ 0)
+  have := Int.emod_lt_of_pos x (by norm_num : (0 : Int) < 185127)
+  have := Int.ediv_nonneg h0 (by norm_num : (0 : Int) ≤ 185127)
+  have : x / 185127 ≤ 11600 := by omega
+  split <;> omega
+
+/-! ## `L1_moments`, correlation coefficient, correlation ratio -/
+
+/-- `L1_moments` returns the total mass, the weighted median index (least index whose cumulative
+    mass reaches half the total) and the mean absolute deviation about it -/
+theorem l1_moments_spec (h : List Rat) (hpos : 0 < h.sum) :
+    (l1Moments h).1 = h.sum ∧
+    ∃ m : Nat, (l1Moments h).2.1 = (m : Rat) ∧ m < h.length ∧
+      h.sum / 2 ≤ (h.take (m + 1)).sum ∧
+      (∀ k < m, (h.take (k + 1)).sum < h.sum / 2) ∧
+      (l1Moments h).2.2 = isum (fun (k : Nat) => |(k : Rat) - (m : Rat)|) 0 h / h.sum :=
+  l1Moments_spec_of_pos h hpos
+
+/-- the correlation-coefficient measure is the squared Pearson correlation of the normalised
+    histogram (central moments), whenever the `TINY` clamps are inactive -/
+theorem cc_is_squared_pearson (H : List (List Rat)) (hn : tiny ≤ total H) :
+    let n := total H
+    let mI := esum (fun _ (c : Nat) => (c : Rat)) H / n
+    let mJ := esum (fun (r : Nat) _ => (r : Rat)) H / n
+    let cov := esum (fun (r c : Nat) => ((c : Rat) - mI) * ((r : Rat) - mJ)) H / n
+    let vI := esum (fun _ (c : Nat) => ((c : Rat) - mI) ^ 2) H / n
+    let vJ := esum (fun (r : Nat) _ => ((r : Rat) - mJ) ^ 2) H / n
+    tiny ^ 2 ≤ vI * vJ → (cc H).1 = cov ^ 2 / (vI * vJ) ∧ (cc H).2 = n :=
+  cc_textbook H hn
+
+/-- the correlation-ratio measure is `1 − E[Var(I | J)] / Var(I)` (within-row sum of squares about
+    the conditional means over the total variance), whenever the `TINY` clamps are inactive -/
+theorem cr_is_correlation_ratio (H : List (List Rat)) (w : Nat)
+    (hw : ∀ row ∈ H, row.length = w)
+    (hnn : ∀ row ∈ H, ∀ x ∈ row, 0 ≤ x)
+    (hrow : ∀ row ∈ H, row.sum = 0 ∨ tiny ≤ row.sum)
+    (hn : tiny ≤ total H) :
+    let n := total H
+    let mI := esum (fun _ (c : Nat) => (c : Rat)) H / n
+    let vI := esum (fun _ (c : Nat) => ((c : Rat) - mI) ^ 2) H / n
+    tiny ≤ vI → (cr H).1 = 1 - (withinSS H / n) / vI ∧ (cr H).2 = n :=
+  cr_textbook H w hw hnn hrow hn
+
+/-! ## Non-vacuity -/
+
+/-- a concrete padded 1×1×1 target (value 5 in the middle) -/
+def exV : Vol := ⟨1, 1, 1, #[-1,-1,-1,-1,-1,-1,-1,-1,-1,-1,-1,-1,-1,5,-1,-1,-1,-1,-1,-1,-1,-1,-1,-1,-1,-1,-1]⟩
+
+example : inside exV ⟨1, -1/2, -1/4, 0⟩ := by decide +kernel
+example : mass (voxDeps .pv exV 6 0 ⟨1, -1/2, -1/4, 0⟩ 0) = 3 / 8 := by decide +kernel
+example : voxDeps .tri exV 6 0 ⟨1, -1/2, -1/4, 0⟩ 0 = [(11, 1)] := by decide +kernel
+example : voxDeps .rand exV 6 0 ⟨1, -1/2, -1/4, 0⟩ (1/2) = [(11, 1)] := by decide +kernel
+example : ∀ q, exV.get q < ((6 : Nat) : Int) := by
+  intro q
+  by_cases h : q < 27
+  · exact (by decide +kernel : ∀ q < 27, exV.get q < ((6 : Nat) : Int)) q h
+  · have : exV.get q = -1 := by
+      unfold Vol.get exV
+      simp [Array.getD, h]
+    rw [this]; decide
+example : jointHist .pv exV 2 6 0 [⟨1, 0, 0, 0⟩] [] = [0,0,0,0,0,0, 0,0,0,0,0,1] := by decide +kernel
+example : inside exV ⟨5, (0 : Nat), (0 : Nat), (0 : Nat)⟩ := by decide +kernel
+example : 0 ≤ prngValue (prngStep ⟨194761, 347190, 237036, 85883⟩) := by decide +kernel
+example : l1Moments [1, 0, 2, 1] = (4, 2, 3 / 4) := by decide +kernel
+example : cc [[2, 1], [1, 2]] = (1 / 9, 6) := by decide +kernel
+example : cr [[2, 1], [1, 2]] = (1 / 9, 6) := by decide +kernel
 
 end NipyVerif.C09
